@@ -303,6 +303,11 @@ SmsD == SmsWith(<<cA, NL>>,
                 <<Seg(1, 0, <<0, 3, 0, -1>>)>>,
                 <<FileA>>, <<ContentA>>, <<>>, <<<<114, 47>>>>)
 
+\* same file and content as SmsA/SmsB, its own name table (the composite's index of Name1 is not 0)
+SmsE == SmsWith(<<cA, cA>>,
+                <<Seg(1, 0, <<0, 1, 0, 0>>), Seg(1, 1, <<0, 1, 1, -1>>)>>,
+                <<FileA>>, <<ContentA>>, <<Name1>>, <<>>)
+
 LawXs ==
   {Orig(<<cA>>), Orig(<<cA, NL>>), Orig(<<cA, NL, cA>>), Raw("str", <<98>>),
    Raw("str", <<>>), Raw("str", <<98, NL>>), SmsA, SmsB}
@@ -364,7 +369,7 @@ C04Scope ==
 
 C06Ys ==
   {Orig(<<cA>>), Orig(<<cA, NL>>), Raw("str", <<98, NL>>), Raw("str", <<98>>),
-   SmsA, SmsB, SmsC, SmsD,
+   SmsA, SmsB, SmsC, SmsD, SmsE,
    \* children whose own final-mode stream carries closings and empty pieces
    Raw("str", <<>>), CC(<<Orig(<<cA>>), Raw("str", <<98>>)>>),
    CC(<<Orig(<<cA, NL>>), Raw("str", <<>>)>>),
